@@ -37,12 +37,12 @@ mut("offset_dropped_with_limit", ["C11", "C02"], "sql/_engine.py", "        if s
 mut("chain_engine_check_removed", ["C14", "C20"], "_operations/_chain.py", "        if lhs.engine != rhs.engine:", "        if False:")
 mut("transfer_to_same_engine_kept", ["C14"], "_engine.py", "        if target.engine == self:\n            if payload is not None:", "        if False:\n            if payload is not None:")
 mut("transfer_simplify_through_locked", ["C15"], "_transfer.py", "        if target.is_locked:\n            return None", "        if False:\n            return None")
-mut("backtrack_through_locked", ["C15", "C03"], "iteration/_engine.py", "        if tree.is_locked:\n            return tree, False, (f\"{tree} is locked\",)", "        if False:\n            return tree, False, (f\"{tree} is locked\",)")
+mut("backtrack_through_locked", ["C03"], "iteration/_engine.py", "        if tree.is_locked:\n            return tree, False, (f\"{tree} is locked\",)", "        if False:\n            return tree, False, (f\"{tree} is locked\",)")
 mut("diagnostics_chain_or", ["C16"], "_diagnostics.py", "return cls(lhs_result.is_doomed and rhs_result.is_doomed, messages)", "return cls(lhs_result.is_doomed or rhs_result.is_doomed, messages)")
 mut("diagnostics_selection_not_executed", ["C16"], "_operations/_selection.py", "    def is_empty_invariant(self) -> bool:\n        # Docstring inherited.\n        return False", "    def is_empty_invariant(self) -> bool:\n        # Docstring inherited.\n        return True")
 mut("conform_rewraps_select", ["C17"], "sql/_engine.py", "            case Select():\n                return relation\n            case UnaryOperationRelation(operation=operation, target=target):\n                conformed_target = self.conform(target)", "            case Select() if relation.has_slice:\n                return Select.apply_skip(relation)\n            case Select():\n                return relation\n            case UnaryOperationRelation(operation=operation, target=target):\n                conformed_target = self.conform(target)")
 mut("is_compound_never_set", ["C17"], "sql/_select.py", "            case BinaryOperationRelation(operation=Chain()):\n                is_compound = True", "            case BinaryOperationRelation(operation=Chain()):\n                is_compound = bool(projection)")
-mut("chain_single_pass", ["C18", "C01"], "iteration/_row_iterable.py", "        self.chain = chain\n", "        self.chain = chain\n        self._it = None\n")
+mut("chain_single_pass", ["C18"], "iteration/_row_iterable.py", "        self.chain = chain\n", "        self.chain = chain\n        self._it = None\n")
 mut("selection_eager", ["C18"], "iteration/_row_iterable.py", "    def __init__(self, target: RowIterable, callable: Callable[[Mapping[ColumnTag, Any]], bool]):\n        self.target = target", "    def __init__(self, target: RowIterable, callable: Callable[[Mapping[ColumnTag, Any]], bool]):\n        self.target = RowSequence(list(target))")
 mut("name_without_uuid", ["C19"], "_engine.py", "_{uuid.uuid4().hex}\"", "\"", 12)
 mut("name_short_uuid", ["C19"], "_engine.py", "_{uuid.uuid4().hex}\"", "_{uuid.uuid4().hex[:3]}\"", 12)
